@@ -71,5 +71,10 @@ def install():
     can.notifier.threading = thm
     can.notifier.time = tm
     can.bus.time = tm.time
+    # python-can's thread based cyclic sender (one task flavour of C17): Thread, Lock, perf_counter_ns and sleep
+    import can.broadcastmanager
+    can.broadcastmanager.threading = thm
+    can.broadcastmanager.time = tm
+    can.bus.threading = thm
     logging.disable(logging.CRITICAL)
     _installed = True
